@@ -118,14 +118,14 @@ type Call struct {
 	FailAt      int
 	// StallAt > 0: the body blocks after StallAt-1 bytes; BodyUnblockedNs: when that read
 	// returned (-1: never). Short > 0: the body ended (cleanly) that many bytes early.
-	StallAt          int
-	BodyUnblockedNs  atomic.Int64
-	Short            int
-	CtxDoneNs   int64 // virtual time at which the call saw ctx.Done (-1 if not)
-	CtxErr      string
-	Completed   bool
-	HasDeadline bool
-	DeadlineNs  int64
+	StallAt         int
+	BodyUnblockedNs atomic.Int64
+	Short           int
+	CtxDoneNs       int64 // virtual time at which the call saw ctx.Done (-1 if not)
+	CtxErr          string
+	Completed       bool
+	HasDeadline     bool
+	DeadlineNs      int64
 }
 
 type StoreOp struct {
@@ -562,11 +562,14 @@ type failReader struct {
 	// closeErr: Close reports an error (after the fact: every byte has been delivered)
 	closeErr bool
 	// stall: block after this many bytes until ctx ends or the body is closed; <0 never
-	stall  int
-	ctx    context.Context
-	closed chan struct{}
-	once   sync.Once
-	now    func() int64
+	stall int
+	// ctxBound: reads fail once ctx has ended (bodies of background calls: only the cache
+	// ever reads them)
+	ctxBound bool
+	ctx      context.Context
+	closed   chan struct{}
+	once     sync.Once
+	now      func() int64
 }
 
 var ErrBody = errors.New("origin: injected body read failure")
@@ -574,6 +577,11 @@ var ErrBody = errors.New("origin: injected body read failure")
 func (r *failReader) Read(p []byte) (int, error) {
 	if r.fail >= 0 && r.pos >= r.fail {
 		return 0, ErrBody
+	}
+	if r.ctxBound && r.ctx.Err() != nil {
+		// like the body of a net/http.Transport response: once the request's context has
+		// ended, nothing more can be read
+		return 0, context.Cause(r.ctx)
 	}
 	if r.stall >= 0 && r.pos >= r.stall {
 		var err error
@@ -856,7 +864,7 @@ func (o *origin) RoundTrip(req *http.Request) (*http.Response, error) {
 	if rp.Body.ShortBy > 0 && len(body) > 0 && (rp.Shape == "" || rp.Shape == "cl") {
 		call.Short = min(rp.Body.ShortBy, len(body))
 	}
-	fr := &failReader{data: body, fail: fail, call: call, closeErr: rp.Body.CloseErr, stall: stall, ctx: ctx, closed: make(chan struct{}), now: w.now}
+	fr := &failReader{data: body, fail: fail, call: call, closeErr: rp.Body.CloseErr, stall: stall, ctx: ctx, ctxBound: !fg && !rp.IgnoreCtx, closed: make(chan struct{}), now: w.now}
 	if call.Short > 0 {
 		fr.data = body[:len(body)-call.Short] // fewer bytes than the Content-Length below announces, then EOF
 		call.Body = fr.data                   // what the origin delivered is what a client can get
@@ -932,7 +940,7 @@ type reqSnapshot struct {
 func effectiveURL(req *http.Request) string {
 	u := *req.URL
 	if req.Host != "" {
-		u.Host = req.Host
+		u.Host = req.Host // (not used below when the Opaque itself names an authority)
 	}
 	if u.Opaque != "" {
 		raw := u.Scheme + ":" + u.Opaque
@@ -1472,6 +1480,9 @@ func (w *World) doReqMode(rt http.RoundTripper, step int, rq *Req, concurrent bo
 	}
 	if legacyCancel != nil {
 		req.Cancel = legacyCancel //nolint:staticcheck // deprecated, but honoured by net/http and set by http.Client
+	}
+	if rq.HostOverride != "" && (rq.OpaqueForm == 2 || rq.OpaqueForm == 3) && req.URL.Opaque != "" {
+		req.Host = rq.HostOverride
 	}
 	if rq.DialVia != "" {
 		u := *req.URL
